@@ -429,6 +429,11 @@ pub fn install_quiet_panic_hook() {
         if std::env::var("LCV_SHOW_PANICS").is_ok() {
             eprintln!("[panic] {} at {}", msg, loc);
         }
+        if std::env::var("LCV_BACKTRACE").is_ok() {
+            let bt = format!("{}", std::backtrace::Backtrace::force_capture());
+            let lines: Vec<&str> = bt.lines().filter(|l| l.contains("/repo/src") || l.contains("lcv::")).take(14).collect();
+            eprintln!("[backtrace] {} at {}\n{}", msg, loc, lines.join("\n"));
+        }
         LAST_PANIC.with(|p| *p.borrow_mut() = Some((msg, loc)));
     }));
 }
